@@ -10,7 +10,8 @@ from . import chan_common as cc
 
 PREFIXES = ("C07-", "C01-stored-values", "C01-read-values", "final-file-set")
 
-LAYOUTS = ["gap-inside-file", "head-of-first-file", "tail-of-last-file", "whole-files-skipped", "combination"]
+LAYOUTS = ["gap-inside-file", "head-of-first-file", "tail-of-last-file", "whole-files-skipped", "combination",
+           "blocks-short-gaps", "blocks-skip-one-file"]
 
 
 def sweep_case(digital_rf, root, rng, seed, dtype, order, cplx, nsub, mode, layout, name, rate):
@@ -42,6 +43,19 @@ def sweep_case(digital_rf, root, rng, seed, dtype, order, cplx, nsub, mode, layo
     elif layout == "whole-files-skipped":
         ch.write([[b[0], cap[0]]])
         ch.write([[b[3], cap[3] + 1]])
+    elif layout == "blocks-short-gaps":
+        # one rf_write_blocks call whose blocks are separated by gaps shorter than a file: inside a file and across a boundary
+        k = next((i for i in range(len(cap) - 2) if cap[i] >= 4), 0)
+        a = max(pos, b[k])
+        runs = [[a, 1], [a + 2, max(1, cap[k] - 3 - (a - b[k]))]]
+        nxt = b[k + 1] + (1 if cap[k + 1] > 2 else 0)
+        if nxt > runs[-1][0] + runs[-1][1]:
+            runs.append([nxt, max(1, cap[k + 1] // 2)])
+        ch.write(runs)
+    elif layout == "blocks-skip-one-file":
+        # one call: a block that ends on a file's last slot, the next one starts on the first slot of the file after next
+        k = 1 if start <= b[1] else 2
+        ch.write([[max(start, b[k]), b[k + 1] - max(start, b[k])], [b[k + 2], max(1, cap[k + 2] // 2)]])
     else:
         ch.write([[start, 1]])
         ch.write([[b[1] + (1 if cap[1] > 1 else 0), 1], [b[4], max(1, cap[4] - 1)]])
@@ -63,7 +77,8 @@ def run(ctx):
                for ns in (1, 3) for m in ("contU", "contC") for lay in LAYOUTS]
     if ctx.quick:
         # every dtype x byte order x real/complex in contU at least once, the rest sampled
-        must = [p for p in product if p[4] == "contU" and p[3] == 1 and p[5] == "combination"]
+        must = [p for p in product if p[4] == "contU" and p[3] == 1 and p[5] in ("combination", "blocks-short-gaps")]
+        must += [p for p in product if p[4] == "contU" and p[3] == 1 and p[5] == "blocks-skip-one-file" and p[1] == "<" and not p[2]]
         rest = [p for p in product if p not in must]
         rng.shuffle(rest)
         product = must + rest[:60]
